@@ -715,7 +715,8 @@ def drv_chunks(tier):
                 continue
             if i % 6 == 0 and dd:
                 # documented key format 'chrom_pos[.info]': an untagged and a tagged key at the same site
-                k0 = sorted(dd)[0].split('.')[0] if '.' in sorted(dd)[0].rsplit('_', 1)[1] else sorted(dd)[0]
+                _c, _rest = sorted(dd)[0].rsplit('_', 1)      # key = chrom_pos[.tag]; the chromosome name itself may contain '.' and '_'
+                k0 = _c + '_' + _rest.split('.', 1)[0]
                 dd2 = dict(dd)
                 dd2[k0] = dd[sorted(dd)[0]]
                 dd2[k0 + '.2'] = dd[sorted(dd)[0]]
